@@ -197,7 +197,12 @@ func (m *machine) unsubscribe(t *rapid.T) {
 	} else {
 		c = regs.DrawCall(t, m.w, "unsub")
 	}
-	want := m.subs[c.Key()]
+	regs.DrawForeignClientDev(t, m.w, &c, "unsub")
+	// a client address that names another device denotes no entry of the sender
+	want := m.subs[c.Key()] && c.ForeignClientDev == ""
+	if c.ForeignClientDev != "" {
+		world.Label("unsubscribe/client-address-names-foreign-device")
+	}
 	m.w.Events.Drain()
 	n, ok := m.w.Do(c, world.UnsubscribeCall(m.w.ClientAddr(c), m.w.ServerAddr(c)))
 	m.logf("unsubscribe %s => results=%d ok=%v (model %v)", c, n, ok, want)
@@ -408,8 +413,36 @@ func (m *machine) localChange(t *rapid.T) {
 	for _, p := range m.w.Peers {
 		p.Cap.Drain()
 	}
-	mode := rapid.SampledFrom([]string{"SetData", "UpdateData", "UpdateData", "UpdateData-unknown-function"}).Draw(t, "mode")
+	mode := rapid.SampledFrom([]string{"SetData", "UpdateData", "UpdateData", "UpdateData-unknown-function", "UpdateData-filter-not-supported"}).Draw(t, "mode")
+	// a function of the feature's own type that is no list: an update with a filter is refused for it
+	var plain *gen.Func
+	for _, x := range gen.ForFeature(m.w.Servers[si].Type) {
+		if x := x; !x.IsList && x.Fn != model.FunctionTypeDeviceDiagnosisHeartbeatData {
+			plain = &x
+			break
+		}
+	}
+	if mode == "UpdateData-filter-not-supported" && plain == nil {
+		mode = "UpdateData-unknown-function"
+	}
 	switch mode {
+	case "UpdateData-filter-not-supported":
+		// the feature has the function, but its data type takes no restricted updates: the call fails, the
+		// data stays and nobody is notified
+		before := world.JSON(srv.DataCopy(plain.Fn))
+		payload := gen.Ptr(t, plain.DataType, gen.Opt{MaxSlice: 1, MaxDepth: 3}, "plainPayload").Interface()
+		var fp, fd *model.FilterType
+		if rapid.Bool().Draw(t, "deleteFilter") {
+			fd = &model.FilterType{CmdControl: &model.CmdControlType{Delete: &model.ElementTagType{}}}
+		} else {
+			fp = model.NewFilterTypePartial()
+		}
+		err := srv.UpdateData(plain.Fn, payload, fp, fd)
+		m.logf("UpdateData server %d %s (no list) with a %s filter => err=%v", si, plain.Fn, map[bool]string{true: "delete", false: "partial"}[fd != nil], err != nil)
+		if after := world.JSON(srv.DataCopy(plain.Fn)); err != nil && after != before {
+			world.Fail(t, "C08/failed-update-changed-data", "UpdateData reported an error but the data changed%s", m.history())
+		}
+		m.expectFanout(t, "UpdateData-failed", si, plain.Fn, err == nil, nil, nil)
 	case "SetData":
 		u := refmodel.Update{Items: listgen.Items(t, f, 3, gen.Opt{}, "items")}
 		srv.SetData(f.Fn, refmodel.Payload(f, u.Items))
